@@ -5,7 +5,7 @@
     All theorems quantify over ARBITRARY op lists from the initial state whose
     execution respects the calling protocol ([exec] returns [Some]). *)
 From Coq Require Import List Arith Bool PeanoNat Permutation.
-From Celer Require Import C02.TrackInit C02.ListLemmas C02.InvA C02.InvA2 C02.InvB C02.TrackInitProofs C02.Examples.
+From Celer Require Import C02.TrackInit C02.ListLemmas C02.InvA C02.InvA2 C02.InvB C02.TrackInitProofs C02.Parents C02.Examples.
 Import ListNotations.
 
 Theorem C02_counters_vacancies_exact : forall cfg ops s,
@@ -133,3 +133,36 @@ Theorem C02_drain_progress_partial : forall cfg ops s s',
 Proof. exact drain_progress_partial. Qed.
 Print Assumptions C02_drain_progress_partial.
 
+Theorem C02_parents_correct : forall cfg ops s s',
+  exec cfg (init_state cfg) ops = Some s -> extend_from_secondaries cfg s = Ok s' ->
+  let n := n_slots cfg in
+  let total := c_sec (cnt s') in
+  let orig := origins (charge_order cfg) 0 (slots s) in
+  let pushed := skipn (length (stack s)) (stack s') in
+  length orig = total /\
+  Forall2 (fun t (o : nat * bool) =>
+             let sl := nth (fst o) (slots s) dflt_slot in
+             tev t = tev (str sl) /\ tpar t = Some (tid (str sl)) /\ snd o = status_eqb (sst sl) Alive)
+          pushed orig /\
+  (forall o, 1 <= o <= n ->
+     nth (n - o) (parents s') None =
+     match nth_error orig (total - o) with
+     | Some (j, al) => if (o <=? total) && (negb (charge_order cfg) || al) then Some j
+                       else nth (n - o) (parents s) None
+     | None => nth (n - o) (parents s) None
+     end).
+Proof. exact parents_correct. Qed.
+Print Assumptions C02_parents_correct.
+
+(** Observation O2 (props/C02/NOTES.md): a model-level witness, reproduced on
+    the real code (props/C02/corpus/O2-stale-parent.txt), that the slot named by
+    [parents] at initialisation need not hold the initializer's parent when
+    extend-from-primaries does not run between the steps (init_charge). *)
+Theorem C02_parent_slot_stale_refuted :
+  exists s sid ini p,
+    exec o2_cfg (init_state o2_cfg) o2_ops = Some s /\ ph s = Ready /\
+    init_thread o2_cfg s (partition_initializers (stack s) (c_init (cnt s)) 1) 1 0 = (sid, ini, Some p) /\
+    tpar ini <> Some (tid (str (nth p (slots s) dflt_slot))) /\
+    tpar ini <> tpar (str (nth p (slots s) dflt_slot)).
+Proof. exact parent_slot_stale_refuted. Qed.
+Print Assumptions C02_parent_slot_stale_refuted.
